@@ -423,8 +423,46 @@ def _dispatch(fl):
     return []
 
 
+# Upgrade's decision table (WsCb.execOf): `wsc.Execute = nbhttp.SyncExecutor` appears only inside the two
+# transferred-to-poller branches (`if transferConn {`), each time under the ET+ONESHOT test and right after
+# `wsc.Execute = nbc.Execute`; the poller-driven branches assign `parser.Execute` and nothing behind the switch
+# reassigns the executor
+def upgrade_sync_executor_only_in_transfer_branches(sc):
+    src = _source(sc, "nbhttp/websocket/upgrader.go")
+    m = re.search(r"func \(u \*Upgrader\) Upgrade\(.*?\n}\n", src, re.S)
+    if not m:
+        return False, "Upgrader.Upgrade not found"
+    lines = m.group(0).split("\n")
+    indent = lambda l: len(l) - len(l.lstrip("\t"))
+    problems, found = [], 0
+    for i, l in enumerate(lines):
+        if "wsc.Execute = nbhttp.SyncExecutor" not in l:
+            continue
+        found += 1
+        k, chain = indent(l), []
+        for j in range(i - 1, -1, -1):
+            if lines[j].strip() and indent(lines[j]) < k:
+                k = indent(lines[j])
+                chain.append(lines[j].strip())
+        if "if transferConn {" not in chain:
+            problems.append("Upgrade: SyncExecutor installed outside a transferred-to-poller branch (line %d of the function; enclosing: %s)" % (i + 1, chain[:3]))
+        if not any("EPOLLONESHOT" in c for c in chain[:1]):
+            problems.append("Upgrade: SyncExecutor installed without the ET+ONESHOT test (line %d of the function)" % (i + 1))
+    if found != 2:
+        problems.append("Upgrade: expected the SyncExecutor rule in exactly the two transferred branches, found %d" % found)
+    body = m.group(0)
+    tail = body[body.find("// Scenario 4"):]
+    tail = tail[tail.find("\n\t}\n"):] if "\n\t}\n" in tail else tail
+    if re.search(r"wsc\.Execute\s*=", tail.split("commResponse")[0]):
+        problems.append("Upgrade: the executor is reassigned behind the scenario switch")
+    if body.count("wsc.Execute = parser.Execute") < 2:
+        problems.append("Upgrade: the poller-driven branches do not install parser.Execute")
+    return (not problems), "; ".join(problems)
+
+
 C14_CS = cs.WSWRITE + cs.WSCLOSE + [
     cs_conc.cs_conn_submit, cs_conc.cs_conn_drainer, cs_conc.cs_conn_close_flip, cs_conc.cs_nbhttp_close_routed,
     _custom("upgrade_response_before_open", "nbhttp/websocket/upgrader.go", "websocket.Upgrader.Upgrade", _upgrade_order),
     _custom("ws_message_dispatched_through_execute", "nbhttp/websocket/conn.go", "websocket.Conn.handleMessage", _dispatch),
+    upgrade_sync_executor_only_in_transfer_branches,
 ]
